@@ -1406,3 +1406,100 @@ func checkNameSpecialCasesOnBothSides(c *core.Ctx, r *core.Rule, prog *core.Prog
 		r.Pass("no name special cases in package uri")
 	}
 }
+
+// checkResetBufferNotRetained: `buf = buf[:0]` at the top of a loop iteration
+// reuses one backing array for every iteration. That is fine for a scratch
+// buffer whose contents are consumed before the next reset, and wrong as soon as
+// the slice value itself is kept: stored into a struct field, an element or a map
+// that outlives the iteration. All kept values then alias the same memory and
+// the last iteration overwrites the earlier ones.
+func checkResetBufferNotRetained(c *core.Ctx, r *core.Rule, prog *core.Prog, pkgs ...string) {
+	n := 0
+	for _, pp := range pkgs {
+		pkg := prog.ByPath[pp]
+		if pkg == nil {
+			continue
+		}
+		for _, top := range core.PkgFuncs(prog.SSA, pkg) {
+			for _, fn := range core.AllFuncs(top) {
+				for _, b := range fn.Blocks {
+					for _, in := range b.Instrs {
+						sl, ok := in.(*ssa.Slice)
+						if !ok || sl.Low != nil || sl.High == nil || sl.Max != nil {
+							continue
+						}
+						if k, ok := sl.High.(*ssa.Const); !ok || k.Value == nil || k.Int64() != 0 {
+							continue
+						}
+						if _, isSlice := sl.X.Type().Underlying().(*types.Slice); !isSlice {
+							continue
+						}
+						if !inLoop(b) {
+							continue
+						}
+						n++
+						// values derived from the reset slice by append / phi
+						derived := map[ssa.Value]bool{}
+						var add func(v ssa.Value)
+						add = func(v ssa.Value) {
+							if derived[v] || v.Referrers() == nil {
+								return
+							}
+							derived[v] = true
+							for _, ref := range *v.Referrers() {
+								switch x := ref.(type) {
+								case *ssa.Call:
+									if bi, ok := x.Common().Value.(*ssa.Builtin); ok && bi.Name() == "append" && x.Common().Args[0] == v {
+										add(x)
+									}
+								case *ssa.Phi:
+									add(x)
+								case *ssa.Store:
+									// through a local variable cell
+									if al, ok := x.Addr.(*ssa.Alloc); ok && x.Val == v && !al.Heap {
+										for _, r2 := range *al.Referrers() {
+											if ld, ok := r2.(*ssa.UnOp); ok && ld.Op == token.MUL {
+												add(ld)
+											}
+										}
+									}
+								}
+							}
+						}
+						add(sl)
+						bad := false
+						for v := range derived {
+							for _, ref := range *v.Referrers() {
+								kept := ""
+								switch x := ref.(type) {
+								case *ssa.Store:
+									if x.Val != v {
+										continue
+									}
+									switch a := x.Addr.(type) {
+									case *ssa.FieldAddr:
+										kept = "a struct field (" + fieldName(a.X.Type(), a.Field) + ")"
+									case *ssa.IndexAddr:
+										kept = "an element of another slice"
+									}
+								case *ssa.MapUpdate:
+									if x.Value == v {
+										kept = "a map entry"
+									}
+								}
+								if kept != "" {
+									bad = true
+									r.Fail("reset-buffer-retained:"+fnKeyFull(fn), c.Pos(core.InstrPos(ref)), fmt.Sprintf("%s resets a slice with [:0] on every iteration (%s) and keeps the slice value in %s: every kept value shares one backing array, later iterations overwrite what earlier ones stored", fn.Name(), c.Pos(sl.Pos()), kept))
+								}
+							}
+						}
+						if !bad {
+							r.Pass(fmt.Sprintf("%s: a slice reset with [:0] in a loop is not retained", fnKeyFull(fn)))
+						}
+					}
+				}
+			}
+		}
+	}
+	r.Note("[:0] resets inside loops examined: %d", n)
+}
